@@ -114,6 +114,20 @@ def stats(events):
 
 def run(ck):
     cases = design(ck)
+    # history of the oracle: for every table and instance one more forged decision that is reported AFTER the honest decisions of that
+    # instance and re-uses the signers and aggregate bytes of an honest decision for a value nobody signed (sig = FALSE for the model:
+    # the aggregate does not verify over this payload).  The oracle's verdict must not depend on what it verified earlier.
+    seen = set()
+    for c in list(cases):
+        if c.get("kind") == "Forged" and c["label"] == "ok" and c["phase"] == "DECIDE" and c["round"] == 0 and c["val"] == "good":
+            k = (tuple(c["tab"]), c["at"])
+            if k not in seen:
+                seen.add(k)
+                r = dict(c)
+                r.update(sig=False, replay=True, signers=[])
+                cases.append(r)
+    for c in cases:
+        c.setdefault("replay", False)
     cfile = os.path.join(ck.dir, "simcases-%d.ndjson" % ck.seed)
     vlib.write_ndjson(cfile, cases)
     binary = vlib.build_driver("tooling", ck.dir)
